@@ -75,6 +75,16 @@ CHECKS = {
    technique="TLA+ model of the offside rule on indentation structure (FoLayout.tla: rendering of trees under increment vectors and noise, block reconstruction as a stack machine; TLC checks reconstruction and the dedent converse for all trees up to 5 items); layout vectors for concrete documents generated by TLC (FoLayoutCases.tla: all single-point deviations, seeded simulation of full layouts), rendered, transpiled by the real fc and compared by TLC (FoLayoutTrace.tla)",
    text="TLC checks that the offside stack machine recovers every tree (<= 5 items, all increment vectors over {1,2,4}, with blank/comment lines at arbitrary columns) and that a last line moved to a smaller column leaves its block. Concrete layout documents (49-115 decision points: indent string of every block incl. tabs, blank lines, line/block/multi-line/starred comments before and after items, if on one line or several, right-hand side / function body / arm body on the same or next line, arms at the match column or deeper, line breaks before |>) are rendered under every single-point deviation and under seeded random full layouts; the real fc must emit the canonical layout's bytes. Dedent cases must be accepted and give the bytes of the regrouped document (and different bytes than before the dedent).",
    note="Trusted: the renderer (it only makes the choices the property names; uniform indent string within a block); layouts are sampled beyond the single-point family; the model covers indentation structure, not the token-level column arithmetic of tkzNext."),
+ "C01": dict(
+   category="model_checking", design_ref="4.1", engine="FoSem",
+   technique="TLA+ semantics of Folang (FoSem.tla: big-step evaluator threading the observable event output through every sub-evaluation); generated programs carry their own Probe/Mark observation points, are transpiled by the real fc, compiled and run; recorded event traces validated by TLC one state per event (FoSemTrace.tla)",
+   text="The strict, left-to-right, lexically scoped semantics of the documented language (let, functions, closures, partial application, pipes, if/elif/else, union and string match, records, tuples, slices, destructuring, interpolation, library calls, = / <>) is an explicit TLA+ evaluator whose result includes the sequence of probe events, so evaluation order, short-circuit, only-the-taken-branch and match dispatch are all observable. Seeded type-directed random programs and systematic kernels (all boolean trees of depth 2 with probed atoms, operand/argument/field order, partial application at every arity, if chains under every truth assignment, union match over constructor x arm order x default x payload form, string match, closures) are transpiled by the real fc (one process each), compiled together and run; TLC checks every recorded event, the final status and the result against the evaluator.",
+   note="Trusted: FoSem.tla as the intended semantics; probe.go's reflection decoder (documented Go representation); the generator's profile (DESIGN 8a). Two known findings are excluded from generation and probed separately (partial-app-effectful-arg, dangling-else-inner-if-only). Programs are sampled, kernels are exhaustive within their small grammar."),
+ "C17": dict(
+   category="model_checking", design_ref="4.17", engine="FoSem",
+   technique="the same TLA+ semantics (FoSem.tla) and trace validation (FoSemTrace.tla) as C01, with the generator restricted to the tinyfo subset and the binary built from tinyfo/; every program is also transpiled by fc and the two recorded traces are compared",
+   text="Seeded random programs of the tinyfo subset (annotated functions, + - comparisons && ||, if/elif/else, one-line if, records, unions with match, slices through variables, pairs and destructuring, pipes, partial application, package_info calls with monomorphic probes) and the C01 kernels inside that subset are transpiled by tinyfo, compiled and run; TLC validates each recorded event trace against the semantics, and the trace of fc's translation of the same program must be identical.",
+   note="Trusted: as C01; the subset is calibrated on the pinned tree (what tinyfo accepts: no lambdas, * /, interpolation, string match, inner functions, generic probes, slice literals as arguments, let right-hand side on the next line); tinyfo reads the frt/slice/strings sections of pkg_all.foi."),
 }
 
 def cmd(pid, tier):
